@@ -112,3 +112,12 @@ Theorem C17_deser_resets_memo :
     (is_zero v = true \/ v = f Hdr Ep Ent V ep mk hash h -> blk_ok Hdr Ep Ent V ep mk hash is_zero b').
 Proof. exact deser_resets_memo_lemma. Qed.
 Print Assumptions C17_deser_resets_memo.
+
+(** why the ethash mutex matters (documentation; the locked code is covered by C17_lookup_transparent, where
+    getOrDefault = lookup + factory + insert is ONE atomic step): if those were separate unlocked steps of a
+    last-epoch-only EthashCacheI, some schedule of three requests returns a value that is not f(header) *)
+Theorem C17_unlocked_getOrDefault_refuted :
+  exists h v, nth_error (uthreads nat nat nat nat CacheExample.unlocked_final) 2 = Some (UDone nat nat nat h v) /\
+              v <> f nat nat nat nat CacheExample.epx CacheExample.mkx CacheExample.hashx h.
+Proof. exact CacheExample.unlocked_getOrDefault_refuted_lemma. Qed.
+Print Assumptions C17_unlocked_getOrDefault_refuted.
